@@ -989,7 +989,7 @@ STREAMS['progexec'] = progexec
 
 
 def probes_c05(tier, seed, ci, nc):
-    return _slice(iter([('rt:nested_taint',), ('rt:source_changed',)]), ci, nc)
+    return _slice(iter([('rt:nested_taint',), ('rt:source_changed',), ('rt:dflt_callee',)]), ci, nc)
 
 
 STREAMS['probes_c05'] = probes_c05
@@ -997,6 +997,7 @@ STREAMS['probes_c05'] = probes_c05
 
 def probes_c06(tier, seed, ci, nc):
     yield ('rt:probes_c06',)
+    yield ('rt:dflt_callee',)
 
 
 STREAMS['probes_c06'] = probes_c06
@@ -1110,7 +1111,7 @@ def declfwd(tier, seed, ci, nc, count=600):
     for k in range(count // nc):
         o = rng.choice(outers)
         i = rng.choice(inners)
-        form = real_decl.FORMS[k % 4]
+        form = real_decl.FORMS[k % len(real_decl.FORMS)]
         recv = rng.choice(real_decl.RECEIVERS) if form != 'function' else 'plain'
         npos = sum(1 for p in i if p[1] in ('po', 'pk'))
         n = rng.choice([0, 0, 0, 1, min(npos, 2)])
@@ -1126,6 +1127,8 @@ STREAMS['declfwd'] = declfwd
 
 def probes_c04(tier, seed, ci, nc):
     yield ('rt:stacked_decl',)
+    yield ('rt:emulate_threads', 'inspect')
+    yield ('rt:emulate_threads', 'sigtools')
 
 
 STREAMS['probes_c04'] = probes_c04
